@@ -112,6 +112,7 @@ use crate::ops::Budget;
 use crate::schema_ops::{schema_ty, with_schema_pair, with_schema_perturbed};
 
 pub type SRun = fn(&mut Gen, &Budget, &mut Sink);
+pub use crate::schema_ops::FullS;
 
 macro_rules! scat {
     ($v:ident; $($t:ty),* $(,)?) => { $( $v.push((stringify!($t), schema_ty::<$t> as SRun)); )* };
